@@ -65,6 +65,29 @@ pub fn drive(tr: &mut Tracer, rng: &mut StdRng, thorough: bool) {
             }
         }
     }
+    // the digit counter on long coefficients: every power of ten 10^k and 10^k + 1 (the values a bit-length estimate of the
+    // digit count is most easily one short on), rounded at, just below and far below their length, through every entry point
+    let kmax = if thorough { 3000 } else { 720 };
+    let mut k = 19usize;
+    while k <= kmax {
+        for plus in [0u8, 1] {
+            let digits = if plus == 0 { format!("1{}", "0".repeat(k)) } else { format!("1{}1", "0".repeat(k - 1)) };
+            let len = k + 1;
+            let a = dec((k + plus as usize) % 2 == 1, &digits, (k as i64 % 37) - 12);
+            let m = MODES[(k + plus as usize) % 7];
+            for p in [len - 1, len, 5 + k % 9] {
+                match (k + p) % 4 {
+                    0 => { tr.emit(json!({"op": "with_precision_round", "a": a, "p": p, "m": m})); }
+                    1 => { tr.emit(json!({"op": "with_prec", "a": a, "p": p})); }
+                    2 => { tr.emit(json!({"op": "ctx_round", "form": rforms[k % 4], "a": a, "p": p, "m": m})); }
+                    _ => { tr.emit(json!({"op": "ctx_add", "form": aforms[k % 5], "a": a, "b": dec(false, "0", 0), "p": p, "m": m})); }
+                }
+            }
+            tr.emit(json!({"op": "with_precision_round", "a": a, "p": len - 1, "m": "Up"}));
+            tr.emit(json!({"op": "with_prec", "a": a, "p": len + 3}));
+        }
+        k += if k < 720 { 1 } else { 7 };
+    }
     // a tiny addend far below the p-th digit still decides directed roundings
     for k in 0..(if thorough { 2000 } else { 400 }) {
         let la = rng.gen_range(1..=12usize);
